@@ -88,6 +88,19 @@ func ScenarioClasses(v *Verdict, sc *Scenario) {
 	if len(sc.Gens) > 0 {
 		v.Class("has-generator")
 	}
+	if len(sc.Convs) >= 40 {
+		v.Class("converters>=40")
+	}
+	for _, l := range append(AllSourceLabels(sc), sc.Target.In...) {
+		switch l.Type {
+		case TypeU:
+			v.Class("unnamed-struct-type")
+		case TypeAny:
+			v.Class("empty-interface")
+		case TypeI0b:
+			v.Class("twin-interface")
+		}
+	}
 	built, once, ptr, pos, iface, sub, multi := false, false, false, false, false, false, false
 	fs := append([]FuncSpec{sc.Target}, sc.Convs...)
 	for i := range fs {
